@@ -374,8 +374,11 @@ def run(ctx):
                             with time_limit(180), np.errstate(all="ignore"):
                                 np.random.seed(seed + 1); prng.seed(seed + 1)
                                 cls = type(pr)
-                                pr2 = cls(ncross=nc, nparent=npar, nmating=nm, nprogeny=npg, nobj=1, obj_wt=sense, obj_trans=pr.obj_trans,
-                                          obj_trans_kwargs={}, soalgo=make_soalgo(algname, rng), rng=gen(rng), **kw)
+                                # half of the twins reuse the SAME protocol object on the permuted population (nothing it kept
+                                # from the first call may leak into the second)
+                                pr2 = pr if rng.random() < 0.5 else \
+                                    cls(ncross=nc, nparent=npar, nmating=nm, nprogeny=npg, nobj=1, obj_wt=sense, obj_trans=pr.obj_trans,
+                                        obj_trans_kwargs={}, soalgo=make_soalgo(algname, rng), rng=gen(rng), **kw)
                                 cfg2 = pr2.select(pgmat=tw["pg"], gmat=tw["pg"], ptdf=None, bvmat=tw["bv"], gpmod=tw["gm"], t_cur=0, t_max=5, miscout=None)
                             c["hastwin"] = True
                             c["twin"] = sorted(int(perm[int(x)]) for x in np.asarray(cfg2.xconfig_decn))
